@@ -123,4 +123,50 @@ theorem sorted_subtract (a b : List Int) (ha : Sorted a) (hb : Sorted b) : Sorte
     rw [mem_subtract _ _ ha.tail hb] at hx
     exact ha.head_lt x hx.1
 
+/-! ### the public operations (`Merge`, `Intersect`, `Complement`) -/
+
+theorem mem_complement (a : IntSet) (v : Int) : a.complement.Mem v ↔ ¬ a.Mem v := by
+  unfold IntSet.Mem IntSet.complement
+  cases a.inverse <;> simp
+
+theorem mem_merge (a b : IntSet) (ha : Sorted a.set) (hb : Sorted b.set) (v : Int) :
+    (a.merge b).Mem v ↔ a.Mem v ∨ b.Mem v := by
+  unfold IntSet.merge IntSet.Mem IntSet.empty
+  have h1 := mem_combine a.set b.set v
+  have h2 := mem_intersect a.set b.set ha hb v
+  have h3 := mem_subtract a.set b.set ha hb v
+  have h4 := mem_subtract b.set a.set hb ha v
+  cases hai : a.inverse <;> cases hbi : b.inverse <;> cases hae : a.set <;> cases hbe : b.set <;>
+    simp_all <;> grind
+
+theorem mem_inter (a b : IntSet) (ha : Sorted a.set) (hb : Sorted b.set) (v : Int) :
+    (a.inter b).Mem v ↔ a.Mem v ∧ b.Mem v := by
+  unfold IntSet.inter IntSet.Mem IntSet.empty
+  have h1 := mem_combine a.set b.set v
+  have h2 := mem_intersect a.set b.set ha hb v
+  have h3 := mem_subtract a.set b.set ha hb v
+  have h4 := mem_subtract b.set a.set hb ha v
+  cases hai : a.inverse <;> cases hbi : b.inverse <;> cases hae : a.set <;> cases hbe : b.set <;>
+    simp_all <;> grind
+
+theorem sorted_merge (a b : IntSet) (ha : Sorted a.set) (hb : Sorted b.set) :
+    Sorted (a.merge b).set := by
+  unfold IntSet.merge
+  have h1 := sorted_combine a.set b.set ha hb
+  have h2 := sorted_intersect a.set b.set ha hb
+  have h3 := sorted_subtract a.set b.set ha hb
+  have h4 := sorted_subtract b.set a.set hb ha
+  repeat' split
+  all_goals assumption
+
+theorem sorted_inter (a b : IntSet) (ha : Sorted a.set) (hb : Sorted b.set) :
+    Sorted (a.inter b).set := by
+  unfold IntSet.inter
+  have h1 := sorted_combine a.set b.set ha hb
+  have h2 := sorted_intersect a.set b.set ha hb
+  have h3 := sorted_subtract a.set b.set ha hb
+  have h4 := sorted_subtract b.set a.set hb ha
+  repeat' split
+  all_goals first | assumption | trivial
+
 end TmVerif.IntSet
